@@ -216,10 +216,14 @@ Section Handler.
 
   Definition TOL := L L1em12.
 
-  Definition solout (C : hconfig) (s : hstate) (xold x : F) (y : vec) (sg : option seg)
-    : hstate * flag F :=
-    let n := length y in
-    (* ---- dense collection ---- *)
+  Definition interp_of (C : hconfig) (n : nat) (sg : option seg) (xi : F) : vec :=
+    match sg with
+    | Some (cont, xo, h) => hc_interp C cont xo h xi n
+    | None => repeat (zero O) n
+    end.
+
+  (* ---- dense collection ---- *)
+  Definition collect_dense (C : hconfig) (s : hstate) (xold x : F) (sg : option seg) : hstate :=
     let segs :=
       match sg with
       | Some (cont, xo, h) =>
@@ -227,67 +231,60 @@ Section Handler.
           else hs_segs s
       | None => hs_segs s
       end in
-    let s := mkHS (hs_next s) (hs_t s) (hs_y s) (hs_tev s) (hs_yev s) segs (hs_yold s) (hs_prev s)
-                  (hs_hits s) (hs_first_done s) (hs_evlog s) (hs_brent_unconverged s) in
-    (* ---- events ---- *)
-    let '(s, stop) :=
-      if Nat.ltb 0 (hc_nevents C) then
-        let gcurr := hc_events C x y in
-        let s := mkHS (hs_next s) (hs_t s) (hs_y s) (hs_tev s) (hs_yev s) (hs_segs s) (hs_yold s)
-                      (hs_prev s) (hs_hits s) (hs_first_done s) ((x, y) :: hs_evlog s)
-                      (hs_brent_unconverged s) in
-        match hs_yold s with
-        | None =>
-            (mkHS (hs_next s) (hs_t s) (hs_y s) (hs_tev s) (hs_yev s) (hs_segs s) (hs_yold s)
-                  gcurr (hs_hits s) (hs_first_done s) (hs_evlog s) (hs_brent_unconverged s), false)
-        | Some yold =>
-            (* first pass: detect and refine, in index order *)
-            let '(det, log, unconv) :=
-              fold_left
-                (fun acc i =>
-                   let '(det, log, unconv) := acc in
-                   let gp := nth i (hs_prev s) (zero O) in
-                   let gc := nth i gcurr (zero O) in
-                   let cfg := nth i (hc_evcfg C) (mkEC DirAll None) in
-                   if crossed gp gc (ec_dir cfg) then
-                     let '(te, ye, pts, conv) := locate_event C i xold x yold y gp gc sg in
-                     let interp xi := match sg with
-                                      | Some (cont, xo, h) => hc_interp C cont xo h xi n
-                                      | None => repeat (zero O) n end in
-                     (det ++ [(te, i, ye)],
-                      fold_left (fun l p => (p, interp p) :: l) pts log,
-                      if conv then unconv else (unconv + 1)%N)
-                   else acc)
-                (seq 0 (hc_nevents C)) ([], hs_evlog s, hs_brent_unconverged s) in
-            let fwd := x >? xold in
-            let sorted := sort_ev (if fwd then (fun a b => a <? b) else (fun a b => a >? b)) det in
-            let s := mkHS (hs_next s) (hs_t s) (hs_y s) (hs_tev s) (hs_yev s) (hs_segs s) (hs_yold s)
-                          (hs_prev s) (hs_hits s) (hs_first_done s) log unconv in
-            let interp0 xi := match sg with
-                              | Some (cont, xo, h) => hc_interp C cont xo h xi n
-                              | None => repeat (zero O) n end in
-            let '(s, term) := process_events C fwd xold interp0 sorted s in
-            (mkHS (hs_next s) (hs_t s) (hs_y s) (hs_tev s) (hs_yev s) (hs_segs s) (hs_yold s)
-                  gcurr (hs_hits s) (hs_first_done s) (hs_evlog s) (hs_brent_unconverged s), term)
-        end
-      else (s, false) in
-    if stop then (s, Interrupt)
-    else
-    (* ---- history for event detection ---- *)
-    let s := mkHS (hs_next s) (hs_t s) (hs_y s) (hs_tev s) (hs_yev s) (hs_segs s) (Some y)
-                  (hs_prev s) (hs_hits s) (hs_first_done s) (hs_evlog s) (hs_brent_unconverged s) in
-    let interp xi := match sg with
-                     | Some (cont, xo, h) => hc_interp C cont xo h xi n
-                     | None => repeat (zero O) n end in
-    (* ---- sampling ---- *)
+    mkHS (hs_next s) (hs_t s) (hs_y s) (hs_tev s) (hs_yev s) segs (hs_yold s) (hs_prev s)
+         (hs_hits s) (hs_first_done s) (hs_evlog s) (hs_brent_unconverged s).
+
+  (* ---- events: detect, refine, sort, record; true = a terminal event fired ---- *)
+  Definition detect_events (C : hconfig) (s : hstate) (xold x : F) (y : vec) (sg : option seg)
+    : hstate * bool :=
+    let n := length y in
+    if Nat.ltb 0 (hc_nevents C) then
+      let gcurr := hc_events C x y in
+      let s := mkHS (hs_next s) (hs_t s) (hs_y s) (hs_tev s) (hs_yev s) (hs_segs s) (hs_yold s)
+                    (hs_prev s) (hs_hits s) (hs_first_done s) ((x, y) :: hs_evlog s)
+                    (hs_brent_unconverged s) in
+      match hs_yold s with
+      | None =>
+          (mkHS (hs_next s) (hs_t s) (hs_y s) (hs_tev s) (hs_yev s) (hs_segs s) (hs_yold s)
+                gcurr (hs_hits s) (hs_first_done s) (hs_evlog s) (hs_brent_unconverged s), false)
+      | Some yold =>
+          (* first pass: detect and refine, in index order *)
+          let '(det, log, unconv) :=
+            fold_left
+              (fun acc i =>
+                 let '(det, log, unconv) := acc in
+                 let gp := nth i (hs_prev s) (zero O) in
+                 let gc := nth i gcurr (zero O) in
+                 let cfg := nth i (hc_evcfg C) (mkEC DirAll None) in
+                 if crossed gp gc (ec_dir cfg) then
+                   let '(te, ye, pts, conv) := locate_event C i xold x yold y gp gc sg in
+                   (det ++ [(te, i, ye)],
+                    fold_left (fun l p => (p, interp_of C n sg p) :: l) pts log,
+                    if conv then unconv else (unconv + 1)%N)
+                 else acc)
+              (seq 0 (hc_nevents C)) ([], hs_evlog s, hs_brent_unconverged s) in
+          let fwd := x >? xold in
+          let sorted := sort_ev (if fwd then (fun a b => a <? b) else (fun a b => a >? b)) det in
+          let s := mkHS (hs_next s) (hs_t s) (hs_y s) (hs_tev s) (hs_yev s) (hs_segs s) (hs_yold s)
+                        (hs_prev s) (hs_hits s) (hs_first_done s) log unconv in
+          let '(s, term) := process_events C fwd xold (interp_of C n sg) sorted s in
+          (mkHS (hs_next s) (hs_t s) (hs_y s) (hs_tev s) (hs_yev s) (hs_segs s) (hs_yold s)
+                gcurr (hs_hits s) (hs_first_done s) (hs_evlog s) (hs_brent_unconverged s), term)
+      end
+    else (s, false).
+
+  (* ---- sampling (Mode 1: t_eval; Mode 2: accepted steps with first_step enforcement) ---- *)
+  Definition sample (C : hconfig) (s : hstate) (xold x : F) (y : vec) (sg : option seg) : hstate :=
+    let n := length y in
+    let interp := interp_of C n sg in
     match hc_t_eval C with
     | Some te =>
         let rest := skipn (hs_next s) te in
         let '(i, t, ys) :=
           if abs O (xold - x) <=? TOL then scan_initial TOL x y rest (hs_next s) (hs_t s) (hs_y s)
           else scan_step (x >? xold) TOL xold x interp rest (hs_next s) (hs_t s) (hs_y s) in
-        (mkHS i t ys (hs_tev s) (hs_yev s) (hs_segs s) (hs_yold s) (hs_prev s) (hs_hits s)
-              (hs_first_done s) (hs_evlog s) (hs_brent_unconverged s), Continue)
+        mkHS i t ys (hs_tev s) (hs_yev s) (hs_segs s) (hs_yold s) (hs_prev s) (hs_hits s)
+             (hs_first_done s) (hs_evlog s) (hs_brent_unconverged s)
     | None =>
         let normal :=
           let push := match hs_t s with
@@ -295,10 +292,10 @@ Section Handler.
                       | tl :: _ => abs O (tl - x) >? TOL
                       end in
           if push then
-            (mkHS (hs_next s) (x :: hs_t s) (y :: hs_y s) (hs_tev s) (hs_yev s) (hs_segs s)
-                  (hs_yold s) (hs_prev s) (hs_hits s) (hs_first_done s) (hs_evlog s)
-                  (hs_brent_unconverged s), Continue)
-          else (s, Continue) in
+            mkHS (hs_next s) (x :: hs_t s) (y :: hs_y s) (hs_tev s) (hs_yev s) (hs_segs s)
+                 (hs_yold s) (hs_prev s) (hs_hits s) (hs_first_done s) (hs_evlog s)
+                 (hs_brent_unconverged s)
+          else s in
         match hc_first_step C with
         | Some h0 =>
             if negb (hs_first_done s) && (abs O (xold - x) >? TOL) then
@@ -311,11 +308,22 @@ Section Handler.
                   | None => (hs_t s, hs_y s, hs_first_done s)
                   end in
                 let '(t2, y2) := if abs O (x - target) >? TOL then (x :: t1, y :: y1) else (t1, y1) in
-                (mkHS (hs_next s) t2 y2 (hs_tev s) (hs_yev s) (hs_segs s) (hs_yold s) (hs_prev s)
-                      (hs_hits s) done (hs_evlog s) (hs_brent_unconverged s), Continue)
-              else (s, Continue)
+                mkHS (hs_next s) t2 y2 (hs_tev s) (hs_yev s) (hs_segs s) (hs_yold s) (hs_prev s)
+                     (hs_hits s) done (hs_evlog s) (hs_brent_unconverged s)
+              else s
             else normal
         | None => normal
         end
     end.
+
+  Definition set_yold (s : hstate) (y : vec) : hstate :=
+    mkHS (hs_next s) (hs_t s) (hs_y s) (hs_tev s) (hs_yev s) (hs_segs s) (Some y)
+         (hs_prev s) (hs_hits s) (hs_first_done s) (hs_evlog s) (hs_brent_unconverged s).
+
+  Definition solout (C : hconfig) (s : hstate) (xold x : F) (y : vec) (sg : option seg)
+    : hstate * flag F :=
+    let s1 := collect_dense C s xold x sg in
+    let se := detect_events C s1 xold x y sg in
+    if snd se then (fst se, Interrupt)
+    else (sample C (set_yold (fst se) y) xold x y sg, Continue).
 End Handler.
